@@ -4,12 +4,12 @@ import BreezyVerif.Model.C15
 Line protocol of C15 (fields separated by one space):
 
   shelve <v> <ids> <B> <W> <SEL> <REC>
-      v    two letters T/F: keepExec, freshExec
+      v    three letters T/F: keepExec, freshExec, pathCheck
       ids  comma list of file ids (naturals)
       B W  trees: entries `id:parent|~:name:kind(f|d|l):exec(T|F):chunks(c.c.c|-)` joined by `;` (`-` = empty)
       SEL  `id:whole:rename:content:kept` joined by `;`, content = n | w | h<bits 0/1>  (`-` = nothing selected)
       REC  comma list of the ids whose recorded executable bit is set in the working tree after shelving
-    -> `E:Malformed`  |  `ok <closed T|F> <W'> <S> <U> <conflicts>`
+    -> `E:Malformed`  |  `E:Reoccupied`  |  `ok <closed T|F> <W'> <S> <U> <conflicts>`
   names <name,name,...>            -> active shelf ids parsed from a directory listing (`-` = none)
   mgr <active ids> <ops n | d<k>>  -> per op the new id / `ok` / `E`, then `|` and the final active list
 -/
@@ -81,10 +81,11 @@ def selOf (l : List (Id × Sel)) : TSel := fun i =>
 
 def parseVariant (s : String) : Option Variant :=
   match s.toList with
-  | [a, b] => do
+  | [a, b, c] => do
     let a ← parseBool (String.singleton a)
     let b ← parseBool (String.singleton b)
-    pure ⟨a, b⟩
+    let c ← parseBool (String.singleton c)
+    pure ⟨a, b, c⟩
   | _ => none
 
 /-- hunk selections must fit the two texts (what the UI can offer) -/
@@ -117,6 +118,7 @@ def handle : List String → String
       if !selShapeOk ids s bt wt then "bad-op" else
       match shelve v ids s bt wt with
       | .error .malformed => "E:Malformed"
+      | .error .reoccupied => "E:Reoccupied"
       | .ok (w', st) =>
         let recf : Id → Bool := fun i => rec.contains i
         let u := unshelve v bt w' recf st
